@@ -2,7 +2,7 @@
 Gen — correctness of event-level scalar expressions over general aggregates (`compGE`):
 constants, `Aggregate` over chains, arithmetic and comparisons over them.
 -/
-import FaxVerif.Gen.AggCorrect
+import FaxVerif.Gen.AggWidenCorrect
 namespace FaxVerif.Gen
 open FaxVerif.Cpp FaxVerif.Linq
 variable {D : Type}
@@ -182,7 +182,7 @@ theorem compGE_correct (C : Ctx D) (QC : QCtx D) (hN : QC.N = C.N) (hev : QC.ev 
     (hcollT : ∀ name, B.collType name = QC.collType name) :
     ∀ (e : GE) (n : Nat) (s : St D) (v : Val D),
       DeclsDoneA C.N (compGE B nm e n).decls s.env →
-      wtGE e = true → (∀ g ∈ aggsGE e, AggTyped QC g) →
+      wtGE e = true → (∀ g ∈ aggsGE e, AggHyp QC g) →
       denote QC [("e", evtVal)] (geQ "e" e) = .ok v →
       ∃ s', execs C (compGE B nm e n).stmts s = .ok s' ∧ s'.rows = s.rows ∧
         evalE C.N s'.env (compGE B nm e n).val = .ok v ∧ HasTy v (tyGE e) ∧
@@ -197,9 +197,23 @@ theorem compGE_correct (C : Ctx D) (QC : QCtx D) (hN : QC.N = C.N) (hev : QC.ev 
     simp only [geQ, denote, Except.ok.injEq] at hden; subst hden
     exact ⟨s, by simp [compGE, execs], rfl, by simp [compGE, evalE], by simp [tyGE, HasTy], fun _ _ => rfl⟩
   | .agg g, n, s, v, hdone, hwt, hct, hden => by
-    simp only [wtGE] at hwt
-    simpa [compGE, tyGE] using agg_correct C QC hN hev B hB nm hinj hres hcollT g n s v (by simpa [compGE] using hdone) hwt
-      (hct g (by simp [aggsGE])) (by simpa [geQ] using hden)
+    simp only [wtGE, wtAggW, Bool.and_eq_true, Bool.or_eq_true] at hwt
+    obtain ⟨hbase, hcase⟩ := hwt
+    obtain ⟨hmt, hne⟩ := hct g (by simp [aggsGE])
+    have hdone' : DeclsDoneA C.N (compAgg B nm g n).decls s.env := by simpa [compGE] using hdone
+    have hden' : denote QC [("e", evtVal)] (aggQ "e" g) = .ok v := by simpa [geQ] using hden
+    by_cases hex : aggExact g.seed.ty g.bodyTy = true
+    · simpa [compGE, tyGE] using agg_correct C QC hN hev B hB.base nm hinj hres hcollT g n (tokChain_of_notToken hB.notToken nm C g.c (n + 1)) s v hdone'
+        (by simp [wtAgg, hbase, hex]) hmt hden'
+    · have hwd : aggWiden g = true := by
+        rcases hcase with h | h
+        · exact absurd h hex
+        · exact h
+      obtain ⟨ws, hchain, hfold⟩ := aggQ_denote QC g v hden'
+      obtain ⟨cty, l, _, hfind, hel⟩ := chainQ_ok QC _ "e" g.c ws hchain
+      have hwsne : ws ≠ [] := hne (by simpa using hex) cty l ws hfind hel
+      simpa [compGE, tyGE] using agg_widen_fold_correct C QC hN hev B hB.base nm hinj hres hcollT g n (tokChain_of_notToken hB.notToken nm C g.c (n + 1)) s ws v hdone'
+        hbase hwd hmt hchain hwsne hfold
   | .bin op a b, n, s, v, hdone, hwt, hct, hden => by
     simp only [wtGE, Bool.and_eq_true] at hwt
     obtain ⟨⟨⟨hwa, hwb⟩, hna⟩, hnb⟩ := hwt
@@ -213,8 +227,8 @@ theorem compGE_correct (C : Ctx D) (QC : QCtx D) (hN : QC.N = C.N) (hev : QC.ev 
       | ok vb =>
         rw [hdb] at hden
         simp only [] at hden
-        have hcta : ∀ g ∈ aggsGE a, AggTyped QC g := fun g hg => hct g (by simp [aggsGE, hg])
-        have hctb : ∀ g ∈ aggsGE b, AggTyped QC g := fun g hg => hct g (by simp [aggsGE, hg])
+        have hcta : ∀ g ∈ aggsGE a, AggHyp QC g := fun g hg => hct g (by simp [aggsGE, hg])
+        have hctb : ∀ g ∈ aggsGE b, AggHyp QC g := fun g hg => hct g (by simp [aggsGE, hg])
         have hdone' : DeclsDoneA C.N ((compGE B nm a n).decls ++ (compGE B nm b (compGE B nm a n).next).decls) s.env := by
           simpa [compGE] using hdone
         have hta : HasTy va (tyGE a) := by
@@ -277,8 +291,8 @@ theorem compGE_correct (C : Ctx D) (QC : QCtx D) (hN : QC.N = C.N) (hev : QC.ev 
       | ok vb =>
         rw [hdb] at hden
         simp only [] at hden
-        have hcta : ∀ g ∈ aggsGE a, AggTyped QC g := fun g hg => hct g (by simp [aggsGE, hg])
-        have hctb : ∀ g ∈ aggsGE b, AggTyped QC g := fun g hg => hct g (by simp [aggsGE, hg])
+        have hcta : ∀ g ∈ aggsGE a, AggHyp QC g := fun g hg => hct g (by simp [aggsGE, hg])
+        have hctb : ∀ g ∈ aggsGE b, AggHyp QC g := fun g hg => hct g (by simp [aggsGE, hg])
         have hdone' : DeclsDoneA C.N ((compGE B nm a n).decls ++ (compGE B nm b (compGE B nm a n).next).decls) s.env := by
           simpa [compGE] using hdone
         have hta : HasTy va (tyGE a) := by
